@@ -5,6 +5,6 @@ for r in "$@"; do
   line="$r:"
   for i in 01 02 03 04 05 06 07 08 09 10 11 12 13 14 15 16 17 18 19 20; do ./check C$i > /tmp/h_${r}_C$i.log 2>&1; rc=$?; line="$line C$i=$rc"; done
   echo "$line"
-  git -C /repo checkout -- .
+  git -C /repo checkout -- . && git -C /repo clean -fdq join join_impl
 done
 python3 tools/extract_tables.py > /dev/null
